@@ -128,6 +128,7 @@ type FnV struct {
 	i2fCache map[string]string
 	i2fList [][2]string
 	ncut int
+	noPatterns bool
 	dm map[string][2]string
 	instName string
 }
@@ -931,6 +932,10 @@ func (fv *FnV) runLoop(st *State, li *loopInfo, label string, nodes []ast.Node, 
 	if pre != nil {
 		pre(body)
 	}
+	var iterStart *State
+	if li.lc != nil && len(li.lc.Steps) > 0 {
+		iterStart = body.clone()
+	}
 	end := fv.exec(body, li.body)
 	fv.popLoop()
 	fr.targets = fr.targets[:len(fr.targets)-1]
@@ -944,6 +949,16 @@ func (fv *FnV) runLoop(st *State, li *loopInfo, label string, nodes []ast.Node, 
 			cont.vars[li.idxObj] = Val{fmt.Sprintf("(+ %s 1)", i.T), i.Ty}
 		}
 		if !cont.dead {
+			if iterStart != nil {
+				for i, cl := range li.lc.Steps {
+					g := fv.evalClauseStep(cont, cl, li, iterStart)
+					lab := cl.Label
+					if lab == "" {
+						lab = fmt.Sprintf("%d", i)
+					}
+					fv.oblige(cont, fmt.Sprintf("loop%s.step[%s]", li.path, lab), "", g, n, cl)
+				}
+			}
 			fv.checkInvariants(cont, li, "preserve", n)
 			if d0 != "" {
 				d1 := fv.evalClause(cont, li.lc.Decreases, li, nil)
